@@ -8,7 +8,10 @@ mkdir -p .cache evidence replays
 python3-vt - <<'PY'
 import sys; sys.path.insert(0, '.')
 from lib import common
-common.load_mir('on')
+common.load_mir('on'); common.load_mir('off')
 common.build_nlrun('dev'); common.build_nlrun('release')
 print('setup ok')
 PY
+# warm the Kani build of the harness crate (dependencies of noulith compiled by Kani's pinned toolchain)
+cp /repo/Cargo.lock kani/Cargo.lock 2>/dev/null || true
+(cd kani && timeout 900 cargo kani -Z stubbing --harness clamped_index_matches_python --target-dir ../.cache/kani-target >/dev/null 2>&1) || echo "kani warm-up did not finish (checks will build it themselves)"
